@@ -544,7 +544,9 @@ class PointAnalysis:
         b = bind_args(fs.fn, call)
         tags = set()
         lo, hi = b.get(fs.p_lo), b.get(fs.p_hi)
-        pair = (canon(lo), canon(hi)) if lo is not None and hi is not None else None
+        from .common import deref_canon as _dcp
+
+        pair = (_dcp(self.prog, fn, lo), _dcp(self.prog, fn, hi)) if lo is not None and hi is not None else None  # bounds handed over through locals
         if "BOX" in self.ftags and pair in HARD_BOUNDS | SEARCH_BOUNDS:
             if pair == ("lb", "ub"):
                 # parameters of a helper: accept only when every caller passes hard bounds
